@@ -137,6 +137,7 @@ type faceM struct {
 }
 
 type inRec struct {
+	superseded  map[uint32]bool // nonces of this face's earlier Interests that a certainly accepted retransmission replaced
 	nonceUnsure bool // a later Interest from this face may or may not have replaced the nonce
 	nonce     uint32
 	tokens    [][]byte
@@ -681,6 +682,17 @@ func (r *runner) doInterest(op *Op) {
 			}
 		}
 	}
+	// A retransmission does not cancel the Interest it follows: the earlier nonce of another face's record is
+	// still "the nonce of one still pending from another face" while that Interest's recording can still be
+	// in the dead nonce list (one dead-nonce lifetime from the nonce's first appearance, weakest reading).
+	if loopFrom == 0 && entCertainlyAlive {
+		for f, rec := range ent.in {
+			if f != op.Face && rec.clean && rec.superseded[nonce] && now < m.firstSeen[nk]+dnl-time.Millisecond {
+				loopFrom = f
+				r.ctx.Probe("loop/superseded-nonce")
+			}
+		}
+	}
 	surelyDead := false
 	for _, w := range m.dead[nk] {
 		// A record may have been made (by a rule the statement does not spell
@@ -917,6 +929,12 @@ func (r *runner) doInterest(op *Op) {
 		// statement allows any token that face supplied for this pending Interest
 		rec.tokens = append(rec.tokens, tok)
 		if accepted {
+			if rec.clean && !rec.nonceUnsure && rec.nonce != nonce {
+				if rec.superseded == nil {
+					rec.superseded = map[uint32]bool{}
+				}
+				rec.superseded[rec.nonce] = true
+			}
 			rec.nonce = nonce
 			rec.nonceUnsure = false
 			rec.mustUntil = now + life
